@@ -6,6 +6,8 @@ import PhpVerif.Model.Glue
 import PhpVerif.Spec.NameRes
 import PhpVerif.Spec.Precedence
 import PhpVerif.Model.Pratt
+import PhpVerif.Model.Render
+import PhpVerif.Props.C15
 /-
 Line-protocol driver: runs the executable model definitions on the operations the Go harness
 also runs on the real code.  One request per line, one answer per line.  Core only (no Mathlib)
@@ -90,6 +92,103 @@ def parseRef (q : String) : Option (Nsr.NameRef × Nsr.AKind) :=
       if form == "q" then some (.fq ps, k) else if form == "r" then some (.rel ps, k) else if form == "p" then some (.plain ps, k) else none
     | none => none
   | _ => none
+
+/-! tree encoding of the `print` op (comma separated words):
+  tree  := N kind nfields field*
+  field := _ | t0 | t1 tok | T n tok* | v0 | v1 hex | k0 | k1 tree | l0 | l1 n tree*
+  tok   := nff hex* hex          hex := x<hexdigits>                                   -/
+structure Fields where
+  toks : List (List Tok) := []
+  vals : List (Option Bytes) := []
+  kids : List (List Tree) := []
+  nn : List Bool := []
+
+def Fields.push (f : Fields) (t : List Tok) (v : Option Bytes) (k : List Tree) (n : Bool) : Fields :=
+  { toks := f.toks ++ [t], vals := f.vals ++ [v], kids := f.kids ++ [k], nn := f.nn ++ [n] }
+
+def pHex (s : String) : Option Bytes :=
+  if s.startsWith "x" then some (unhex (s.drop 1).toString) else none
+
+def pHexes : Nat → List String → Option (List Bytes × List String)
+  | 0, r => some ([], r)
+  | n + 1, w :: r => do
+      let b ← pHex w
+      let (bs, r') ← pHexes n r
+      pure (b :: bs, r')
+  | _, [] => none
+
+def pTok : List String → Option (Tok × List String)
+  | n :: r => do
+      let n ← n.toNat?
+      let (ffs, r1) ← pHexes n r
+      match r1 with
+      | v :: r2 => do
+          let v ← pHex v
+          pure ({ uid := 0, id := 0, val := v, ff := ffs.map (fun b => { id := 0, val := b }) }, r2)
+      | [] => none
+  | [] => none
+
+def pToks : Nat → List String → Option (List Tok × List String)
+  | 0, r => some ([], r)
+  | n + 1, r => do
+      let (t, r1) ← pTok r
+      let (ts, r2) ← pToks n r1
+      pure (t :: ts, r2)
+
+mutual
+partial def pTree : List String → Option (Tree × List String)
+  | "N" :: k :: nf :: r => do
+      let k ← k.toNat?
+      let nf ← nf.toNat?
+      let (fs, r1) ← pFields nf {} r
+      pure (.mk k 0 none fs.toks fs.vals fs.kids fs.nn, r1)
+  | _ => none
+partial def pFields : Nat → Fields → List String → Option (Fields × List String)
+  | 0, acc, r => some (acc, r)
+  | n + 1, acc, w :: r =>
+      match w with
+      | "_" => pFields n (acc.push [] none [] false) r
+      | "t0" => pFields n (acc.push [] none [] false) r
+      | "t1" => do
+          let (t, r1) ← pTok r
+          pFields n (acc.push [t] none [] false) r1
+      | "T" => match r with
+          | c :: r0 => do
+              let c ← c.toNat?
+              let (ts, r1) ← pToks c r0
+              pFields n (acc.push ts none [] false) r1
+          | [] => none
+      | "v0" => pFields n (acc.push [] none [] false) r
+      | "v1" => match r with
+          | h :: r0 => do
+              let b ← pHex h
+              pFields n (acc.push [] (some b) [] false) r0
+          | [] => none
+      | "k0" => pFields n (acc.push [] none [] false) r
+      | "k1" => do
+          let (t, r1) ← pTree r
+          pFields n (acc.push [] none [t] true) r1
+      | "l0" => pFields n (acc.push [] none [] false) r
+      | "l1" => match r with
+          | c :: r0 => do
+              let c ← c.toNat?
+              let (ts, r1) ← pTrees c r0
+              pFields n (acc.push [] none ts true) r1
+          | [] => none
+      | _ => none
+  | _, _, [] => none
+partial def pTrees : Nat → List String → Option (List Tree × List String)
+  | 0, r => some ([], r)
+  | n + 1, r => do
+      let (t, r1) ← pTree r
+      let (ts, r2) ← pTrees n r1
+      pure (t :: ts, r2)
+end
+
+def litBytes (id : Nat) : Bytes :=
+  match Gen.printerLits.find? (·.1 == id) with
+  | some (_, b) => b.map (fun n => UInt8.ofNat n)
+  | none => []
 
 def handle (ws : List String) : String :=
   match ws with
@@ -185,6 +284,10 @@ def handle (ws : List String) : String :=
     match m.toNat? with
     | some m => natsStr (NL.lineStarts (unhex h) m)
     | none => "bad-op"
+  | ["print", enc] =>
+    match pTree (enc.splitOn ",") with
+    | some (t, []) => "x" ++ toHex (render litBytes (chunks C15.realCfg false t))
+    | _ => "bad-op"
   | ["nlscan", h, ps] => natsStr (NL.scan (unhex h) (parseNats ps))
   | _ => "bad-op"
 
